@@ -104,6 +104,11 @@ fn run<T: Flt>(src: &mut Src, obs: &mut Obs, two_d: bool) -> Result<(), Fail> {
     if shape[k..].contains(&0) {
         obs.class("trailing:zero-length");
     }
+    // rarely many lanes
+    if rank > k && !shape[k..].contains(&0) && src.chance(1, 40) {
+        shape[k] = src.usize_in(32, 70);
+        obs.class("lanes:32+");
+    }
     let trailing: Vec<usize> = shape[k..].to_vec();
     let lanes = product(&trailing);
     let total = product(&shape);
